@@ -10,7 +10,9 @@ import (
 	_ "perun.network/go-perun/backend/sim"
 	_ "perun.network/go-perun/client"
 	"verif/harness/internal/c15"
+	"verif/harness/internal/c17"
 	"verif/harness/internal/c18"
+	"verif/harness/internal/c20"
 	"verif/harness/internal/codec"
 	"verif/harness/internal/mach"
 	"verif/harness/internal/tables"
@@ -18,7 +20,9 @@ import (
 
 var drivers = map[string]func(seed int64, tier, out string){
 	"C15": c15.Run,
+	"C17": c17.Run,
 	"C18": c18.Run,
+	"C20": c20.Run,
 	"gen": tables.Run,
 	"C13": codec.RunC13,
 	"C14": codec.RunC14,
